@@ -26,6 +26,10 @@ pub struct SimSource {
     pub fired: Vec<&'static str>,
     /// number of reads issued after the source had already returned an error
     pub reads_after_error: usize,
+    /// oversize probe fills attempted / refused by the `Fill` (see `Workload::probe_reads`)
+    pub probes_tried: usize,
+    pub probes_refused: usize,
+    probe_reads: Vec<usize>,
     errored: bool,
     tmp: Vec<i32>,
     bytebuf: Vec<u8>,
@@ -81,6 +85,9 @@ impl SimSource {
             reported: 0,
             fired: vec![],
             reads_after_error: 0,
+            probes_tried: 0,
+            probes_refused: 0,
+            probe_reads: w.probe_reads.clone(),
             errored: false,
             tmp: vec![],
             bytebuf: vec![],
@@ -174,6 +181,19 @@ impl Source for SimSource {
             }
         }
         let bps = self.bytes_per_sample();
+        if self.probe_reads.contains(&k) && wrong_bps.is_none() {
+            // first offer the "native chunk": the block plus 7 more samples than fit
+            let mut big = self.tmp.clone();
+            let mut j = 0;
+            while big.len() < (block_size + 7) * ch {
+                big.push(self.tmp[j % (n * ch)]);
+                j += 1;
+            }
+            self.probes_tried += 1;
+            if dest.fill_interleaved(&big).is_err() {
+                self.probes_refused += 1;
+            }
+        }
         if let Some(wb) = wrong_bps {
             // same audio, serialised at a width that disagrees with the stream
             self.bytebuf.clear();
@@ -187,9 +207,13 @@ impl Source for SimSource {
                 as_bytes = false; // not representable: hand it over as ints
             }
             if as_bytes {
+                // the byte slice starts at a varying address offset (1, 2, 3, 0, ... bytes into the
+                // allocation): a reader hands over whatever part of its buffer holds the block
+                let off = (k * 5 + 1) % 4;
                 let mut bb = std::mem::take(&mut self.bytebuf);
                 to_le_bytes(&self.tmp, bps, &mut bb);
-                let r = dest.fill_le_bytes(&bb, bps);
+                bb.splice(0..0, std::iter::repeat(0xEEu8).take(off));
+                let r = dest.fill_le_bytes(&bb[off..], bps);
                 self.bytebuf = bb;
                 r?;
             } else {
